@@ -1402,6 +1402,25 @@ func dispatchCallee(m *Model, shortpkg, constName, fallback string) string {
 		return true
 	})
 	if found == "" {
+		// table dispatch: a package-level composite literal keyed by the algorithm constants whose values are functions
+		for _, f := range p.Syntax {
+			ast.Inspect(f, func(n ast.Node) bool {
+				kv, ok := n.(*ast.KeyValueExpr)
+				if !ok || found != "" {
+					return true
+				}
+				if id, ok := kv.Key.(*ast.Ident); ok && id.Name == constName {
+					if vid, ok := kv.Value.(*ast.Ident); ok {
+						if fo, ok := info.Uses[vid].(*types.Func); ok && fo.Pkg() == p.Types {
+							found = fo.Name()
+						}
+					}
+				}
+				return true
+			})
+		}
+	}
+	if found == "" {
 		return fallback
 	}
 	return found
